@@ -4,10 +4,13 @@ Rec == ndJsonDeserialize(IOEnv.TRACE)
 VARIABLE l
 TraceInit == MInit /\ l = 1
 Reset == /\ Rec[l].act.op = "reset"
-         /\ pop' = <<>> /\ best' = NoInd /\ arch' = <<>> /\ shownK' = <<>> /\ evals' = 0 /\ calls' = 0
+         /\ pop' = <<>> /\ best' = NoInd /\ arch' = <<>> /\ shownK' = <<>> /\ evals' = 0 /\ calls' = 0 /\ reg' = <<1, 0>>
          /\ act' = Rec[l].act /\ res' = R("ok", 0)
 Step == /\ Rec[l].act.op # "reset"
-        /\ IF Rec[l].act.op = "archive_update" THEN ArchiveUpdate(Rec[l].arch) ELSE Do(Rec[l].act)
+        /\ CASE Rec[l].act.op = "archive_update" -> ArchiveUpdate(Rec[l].arch)
+             [] Rec[l].act.op \in UserMutOps -> UserMutation(Rec[l].act, Rec[l].pop)
+             [] Rec[l].act.op = "user_select_replace" -> UserSelectReplace(Rec[l].act, Rec[l].pop)
+             [] OTHER -> Do(Rec[l].act)
         /\ res' = Rec[l].res
         /\ pop' = Rec[l].pop /\ best' = Rec[l].best /\ arch' = Rec[l].arch
         /\ evals' = Rec[l].evals /\ calls' = Rec[l].calls
